@@ -126,7 +126,7 @@ class Gen:
     def gen_op(self):
         r = self.rng
         kinds = ["pod_put"] * 4 + ["informer"] * 6 + ["filter"] * 5 + ["bind"] * 6 + ["pod_phase"] * 3 + ["pod_delete"] * 3 + \
-            ["event"] * 5 + ["resync"] * 3 + ["api_release"] * 2 + ["sync_pod"] + ["app_set"] * 3 + ["pool_set"] + \
+            ["event"] * 5 + ["resync"] * 3 + ["api_release"] * 2 + ["sync_pod"] * 2 + ["app_set"] * 3 + ["pool_set"] + \
             ["drop_event", "restart", "reload"]
         if self.pool_api:
             kinds += ["api_pool"] * 4 + ["pool_set"] * 3
@@ -163,6 +163,8 @@ class Gen:
             if k == "pod_delete":
                 self.truth.pop(key, None)
                 return {"op": k, "ns": ns, "name": name}
+            if k == "sync_pod" and r.random() < 0.4:
+                return {"op": k, "ns": ns, "name": name, "stale": True}     # with the object the informer showed before
             return {"op": k, "ns": ns, "name": name}
         if k == "event":
             f = {}
